@@ -47,8 +47,16 @@ def generate(seed, tier):
                 left -= c
             ops.append({"op": "merge", "dseed": P.s64(r), "chunks": chunks, "kind": r.choice(["normal", "const", "binary", "large_offset"]), "tree": r.random() < 0.3})
             continue
+        if m > 0.97:
+            # a single block of samples fed to the block statistics directly (any size, incl. large ones)
+            ops.append({"op": "from_samples", "n": r.choice([1, 2, 7, 100, 1025, 4097, 5000, 8193, 10007]), "obs": [r.choice(["Z", "user", "NN", "const", "Z-0.5"])], "dseed": P.s64(r), "system": r.random() < 0.5})
+            continue
         ns = r.choice([1, 2, 3, 5, 7, 10, 16, 25, 40])
         nc = r.choice([0, 0, 1, 1, 2, 3, 4, 7, ns, ns + 3])
+        if r.random() < 0.04:
+            # occasionally very many samples / chains (large blocks)
+            ns = r.choice([1000, 4097, 5000, 10007])
+            nc = r.choice([0, 0, 4097, 5000, 3])
         op = {
             "op": "sys_stats" if m > 0.65 else "obs_stats",
             "num_samples": ns,
@@ -60,13 +68,16 @@ def generate(seed, tier):
         }
         if r.random() < 0.3:
             op["init_rows"] = r.choice([1, 2, 3, 5])
+            op["init_dtype"] = r.choice(["double", "double", "float", "long"])
             op["init_seed"] = P.s64(r)
             op["overwrite"] = r.random() < 0.5
+        cheap = ns >= 1000
+        pool = ["Z", "Zabs", "NN", "user", "const", "Z-0.5", "negZ"] if cheap else OBS
         if op["op"] == "sys_stats":
             k = r.randint(1, 4)
-            op["obs"] = r.sample(OBS, k)
+            op["obs"] = r.sample(pool, min(k, len(pool)))
         else:
-            op["obs"] = [r.choice(OBS)]
+            op["obs"] = [r.choice(pool)]
         ops.append(op)
     return {"property": PROP, "run_seed": seed, "sub": P.s64(r), "config": {"state": scfg}, "ops": ops}
 
@@ -227,6 +238,29 @@ def execute(plan):
                 trace.append(("merge", len(op["chunks"]), min(op["chunks"]), op["kind"], bool(op.get("tree"))))
                 continue
 
+            if op["op"] == "from_samples":
+                g = np.random.Generator(np.random.PCG64(op["dseed"]))
+                smp = torch.tensor(g.integers(0, 2, size=(op["n"], nv)).astype(np.float64), dtype=torch.double)
+                keep = smp.clone()
+                ob = make_obs(op["obs"][0], nv, counter)
+                try:
+                    if op.get("system"):
+                        from qucumber.observables import System
+
+                        got = System(ob).statistics_from_samples(state, smp)[ob.name]
+                    else:
+                        got = ob.statistics_from_samples(state, smp)
+                    x = ob.apply(state, keep.clone()).detach().numpy().astype(np.float64).reshape(-1)
+                except Exception as exc:  # noqa: BLE001
+                    run.lib_exception(exc, "statistics_from_samples", n=op["n"], obs=op["obs"])
+                    continue
+                cmp_stats(got, x, f"statistics_from_samples[{op['obs'][0]}] on a block of {op['n']} samples", n=op["n"], obs=op["obs"])
+                if not torch.equal(smp, keep):
+                    run.violate("13-overwrite", "statistics_from_samples modified the samples it was given", n=op["n"])
+                if op["n"] > 4096:
+                    run.probes["large_block"] += 1
+                trace.append(("from_samples", op["obs"][0], op["n"], bool(op.get("system"))))
+                continue
             # ---------------- statistics through sampling -----------------------
             names, obs = [], []
             for nm in op["obs"]:
@@ -239,7 +273,8 @@ def execute(plan):
             init_copy = None
             if "init_rows" in op:
                 g = np.random.Generator(np.random.PCG64(op["init_seed"]))
-                init = torch.tensor(g.integers(0, 2, size=(op["init_rows"], nv)).astype(np.float64), dtype=torch.double)
+                idt = {"double": torch.double, "float": torch.float32, "long": torch.long}[op.get("init_dtype", "double")]
+                init = torch.tensor(g.integers(0, 2, size=(op["init_rows"], nv)).astype(np.float64)).to(idt)
                 init_copy = init.clone()
             ns, nc = op["num_samples"], op["num_chains"]
             chains = op["init_rows"] if init is not None else (min(nc, ns) if nc != 0 else ns)
@@ -293,7 +328,7 @@ def execute(plan):
                 elif d0["out"].shape[0] != chains:
                     run.violate("13-chains", f"first draw ran {d0['out'].shape[0]} chains, expected {chains}", **detail)
             else:
-                if d0["init_is_none"] or not np.array_equal(d0["init_before"], init_copy.numpy()):
+                if d0["init_is_none"] or not np.array_equal(d0["init_before"], init_copy.to(torch.double).numpy()):
                     run.violate("13-chains", "first draw did not start from the user's initial chains", **detail)
             for i in range(1, len(draws)):
                 a, b = draws[i - 1], draws[i]
@@ -304,7 +339,7 @@ def execute(plan):
                 if not op.get("overwrite", False):
                     if not torch.equal(init, init_copy):
                         run.violate("13-overwrite", "user's initial chains were modified although overwrite=False", **detail)
-                else:
+                elif init.dtype == torch.double:  # tensors that must be converted cannot be updated in place (documented)
                     if not np.array_equal(init.numpy(), draws[-1]["out"]):
                         run.violate("13-overwrite", "overwrite=True but the user's chains do not hold the final chain state", **detail)
             # ---- values --------------------------------------------------------------
@@ -325,6 +360,8 @@ def execute(plan):
                 big_ops += 1
             if chains == 1:
                 run.probes["single_chain"] += 1
+            if chains > 4096:
+                run.probes["large_block"] += 1
             if nc > ns:
                 run.probes["chains_gt_samples"] += 1
             if ns % chains:
@@ -364,6 +401,17 @@ def shrink(plan):
                 q["ops"][j]["kind"] = "binary"
                 out.append(q)
             continue
+        if op["op"] == "from_samples":
+            for n2 in (1, 2, 7, 100, 4097):
+                if n2 < op["n"]:
+                    q = copy.deepcopy(plan)
+                    q["ops"][j]["n"] = n2
+                    out.append(q)
+            if op.get("system"):
+                q = copy.deepcopy(plan)
+                q["ops"][j]["system"] = False
+                out.append(q)
+            continue
         if len(op["obs"]) > 1:
             for i in range(len(op["obs"])):
                 q = copy.deepcopy(plan)
@@ -381,9 +429,13 @@ def shrink(plan):
                 q = copy.deepcopy(plan)
                 q["ops"][j][key] = op[key] - 1
                 out.append(q)
+        if op.get("init_dtype", "double") != "double":
+            q = copy.deepcopy(plan)
+            q["ops"][j]["init_dtype"] = "double"
+            out.append(q)
         if "init_rows" in op:
             q = copy.deepcopy(plan)
-            for k in ("init_rows", "init_seed", "overwrite"):
+            for k in ("init_rows", "init_seed", "overwrite", "init_dtype"):
                 q["ops"][j].pop(k, None)
             out.append(q)
         if op["mode"] != "honest":
